@@ -130,6 +130,16 @@ impl Ctx {
             }
         }
     }
+    /// As `violation`, for a group of `n` cases that share one signature (first witness kept).
+    pub fn violation_n(&self, sig: &str, msg: impl Into<String>, witness: Value, n: u64) {
+        let mut g = self.groups.lock().unwrap();
+        match g.get_mut(sig) {
+            Some(v) => v.count += n,
+            None => {
+                g.insert(sig.to_string(), VioGroup { count: n, first: witness, msg: msg.into() });
+            }
+        }
+    }
     pub fn violation_count(&self) -> u64 {
         self.groups.lock().unwrap().values().map(|g| g.count).sum()
     }
